@@ -194,8 +194,9 @@ namespace avel {
         static_assert(N < mask16x32f::width, "Specified index does not exist");
         typename std::enable_if<N < mask16x32f::width, int>::type dummy_variable = 0;
 
-        auto mask = b << N;
-        return mask16x32f{__mmask16((decay(m) & ~mask) | mask)};
+        auto bit = std::uint64_t(1) << N;
+        auto mask = std::uint64_t(b) << N;
+        return mask16x32f{__mmask16((decay(m) & ~bit) | mask)};
     }
 
 
